@@ -225,3 +225,61 @@ func vh_C17_L6_wfq_fairness_bound() {
 	}
 	vcover("end")
 }
+
+// C17.L1: framing flags derived from what both sides announced (all 16 combinations,
+// symbolic): interleaving only when both enabled it; with interleaving only the
+// interleaved forward-TSN variant may be used, never the plain one; without it only the
+// plain one.
+func vh_C17_L1_negotiated_framing_flags() {
+	a, _ := vNewAssoc()
+	a.localInterleaving, a.peerInterleaving = nondetBool(), nondetBool()
+	a.peerForwardTSN, a.peerIForwardTSN = nondetBool(), nondetBool()
+	a.useInterleaving = false
+	vassert(a.updateInterleavingState() == nil, "the pending queue is empty: the mode can be set")
+	want := a.localInterleaving && a.peerInterleaving
+	vassert(a.useInterleaving == want, "interleaving is on exactly when both sides enabled it")
+	if want {
+		vassert(!a.useForwardTSN, "with interleaving a plain FORWARD-TSN is never used")
+		vassert(a.useIForwardTSN == a.peerIForwardTSN, "I-FORWARD-TSN only if the peer supports it")
+		vassert(a.maxPayloadSize == maxPayloadSizeForMTU(a.mtu, true), "fragments sized for I-DATA")
+	} else {
+		vassert(!a.useIForwardTSN, "without interleaving I-FORWARD-TSN is never used")
+		vassert(a.useForwardTSN == a.peerForwardTSN, "plain FORWARD-TSN only if the peer supports it")
+		vassert(a.maxPayloadSize == maxPayloadSizeForMTU(a.mtu, false), "fragments sized for DATA")
+	}
+	vassert(a.partialReliabilityEnabled() == (a.useForwardTSN || a.useIForwardTSN), "partial reliability needs a usable forward-TSN variant")
+	vcover("end")
+}
+
+// C17.L6c: the weights given through the public options reach the scheduler: two streams
+// with weights set by two separate options share the link within the fairness bound.
+func vh_C17_L6_wfq_weights_from_options() {
+	w1, w2 := uint16(1+vPick(3)), uint16(1+vPick(3))
+	cfg := &Config{}
+	opt := WithInterleavingOptions(
+		WithInterleavingWeightedFairQueueingWeight(1, w1),
+		WithInterleavingWeightedFairQueueingWeight(2, w2),
+	)
+	vassert(opt.applyClient(cfg) == nil, "options accepted")
+	q := cfg.interleaving.newStreamScheduler()
+	q.Reset()
+	const L = 2
+	for i := 0; i < 5; i++ {
+		q.Push(vFrag(1, uint16(i), 0, 1, false, L))
+		q.Push(vFrag(2, uint16(i), 0, 1, false, L))
+	}
+	var served [2]int
+	for served[0] < 5*L && served[1] < 5*L {
+		sel := q.Peek()
+		vassert(sel != nil, "a non-empty scheduler always offers a chunk")
+		c := sel.chunkPayloadData()
+		vassert(q.Pop(c) == nil, "pop succeeds")
+		served[int(c.streamIdentifier)-1] += len(c.userData)
+		lhs := served[0]*int(w2) - served[1]*int(w1)
+		if lhs < 0 {
+			lhs = -lhs
+		}
+		vassert(lhs <= L*int(w2)+L*int(w1), "the configured weights govern the sharing (weight-normalised service within one chunk per stream)")
+	}
+	vcover("end")
+}
